@@ -35,7 +35,8 @@ for name, (change, need) in sorted(R8.items()):
     d = os.path.join(V, name)
     if not os.path.isdir(d):
         continue
-    r = json.load(open(d + '/result.json')) if os.path.exists(d + '/result.json') else {}
+    rp = d + '/result-target-only-seed0.json'
+    r = json.load(open(rp)) if os.path.exists(rp) else {}
     first = json.load(open(d + '/result-first-pass.json')) if os.path.exists(d + '/result-first-pass.json') else None
     t = name.split('-')[0]
     meta = {"property": t, "source": SRC, "change": change, "needs_to_manifest": need,
